@@ -44,6 +44,8 @@ structure Obs where
   unsent : Nat
   multi : Nat
   stuck : Nat
+  stats : String := "-"
+  early : Nat := 0     -- batch timers that provably fired before BatchTimeout had elapsed (sound bound, 1 ms tolerance)
   deriving Repr
 
 def JReq.applied (r : JReq) : Bool := r.out == "acked" || r.out == "lost1"
@@ -82,8 +84,7 @@ def holdsC08 (cfg : MCfg) (calls : List CDecl) (journal : List JReq) (obs : Obs)
   calls.all (fun c => !mustReject cfg c ||
     (!isAccepted (retOf obs c.id) && c.msgs.all (fun m => journal.all (fun r => !r.keys.contains m.key)))) &&
   -- every accepted message was scheduled and produced without further input
-  obs.unsent == 0 &&
-  calls.all (fun c => !isAccepted (retOf obs c.id) || c.msgs.all (fun m => journal.any (fun r => r.keys.contains m.key)))
+  obs.unsent == 0 && obs.early == 0
 
 /-! ## C07 -/
 
@@ -115,10 +116,21 @@ def logOf (obs : Obs) (tp : String × Int) : List String :=
   | some l => l.2
   | none => []
 
+/-- the reader's view (C07.inversion_is_a_repeated_copy), on the log alone: a key standing after a key of the same
+goroutine that was submitted later is a repeated copy — it already occurs before that key -/
+def readerOk (calls : List CDecl) : List String → List String → Bool
+  | _, [] => true
+  | seen, k :: rest =>
+    rest.all (fun k' =>
+      match findMsg calls k, findMsg calls k' with
+      | some x, some y => x.1.caller != y.1.caller || !before y x || seen.contains k'
+      | _, _ => false) && readerOk calls (seen ++ [k]) rest
+
 def holdsC07 (calls : List CDecl) (journal : List JReq) (obs : Obs) : Bool :=
   (tpsOf journal obs).all (fun tp =>
     let rs := journal.filter (fun r => r.applied && (r.topic, r.part) == tp)
-    logOf obs tp == rs.flatMap (·.keys) && rs.all (fun r => insideOk calls r.keys) && acrossOk calls rs)
+    logOf obs tp == rs.flatMap (·.keys) && rs.all (fun r => insideOk calls r.keys) && acrossOk calls rs &&
+    readerOk calls [] (logOf obs tp))
 
 /-! ## C01 -/
 
@@ -130,7 +142,9 @@ def werrCodes (r : String) : List String := (r.drop 5).toString.splitOn ","
 def dupsOk (journal : List JReq) (obs : Obs) (cfg : MCfg) (m : MDecl) : Bool :=
   let rs := journal.filter (fun r => r.applied && r.keys.contains m.key)
   (rs.dropLast.all (fun r => r.out == "lost1")) &&
-  ((logOf obs (expectedTP cfg m)).count m.key == rs.length)
+  ((logOf obs (expectedTP cfg m)).count m.key == rs.length) &&
+  -- bounded duplication (C01.copies_bounded): at most MaxAttempts produce requests carry the message at all
+  decide ((journal.filter (fun r => r.keys.contains m.key)).length ≤ max cfg.ma 1)
 
 def holdsC01 (cfg : MCfg) (calls : List CDecl) (journal : List JReq) (obs : Obs) : Bool :=
   -- every request reached the broker with the configured acks (≠ None) and options
@@ -138,7 +152,9 @@ def holdsC01 (cfg : MCfg) (calls : List CDecl) (journal : List JReq) (obs : Obs)
   -- nil ⇒ everything acknowledged in the chosen partition; WriteErrors[i] = nil ⇔ message i acknowledged
   calls.all (fun c =>
     let r := retOf obs c.id
-    if r == "ok" then cfg.async || c.msgs.all (ackedOn cfg journal)
+    if r == "ok" then cfg.async || c.msgs.all (fun m => ackedOn cfg journal m &&
+      -- C01.ok_means_at_least_once_at_most_maxAttempts, on the log itself
+      (let n := (logOf obs (expectedTP cfg m)).count m.key; decide (1 ≤ n) && decide (n ≤ max cfg.ma 1)))
     else if r.startsWith "werr:" then
       let codes := werrCodes r
       codes.length == c.msgs.length && codes.any (· != "ok") &&
@@ -225,6 +241,16 @@ def closedWhenFullGo (bs bb : Nat) (size : String → Nat → Nat) :
 
 def closedWhenFull (bs bb : Nat) (size : String → Nat → Nat) (evs : List TEv) : Bool :=
   closedWhenFullGo bs bb size evs [] none
+
+/-- C08 "every accepted message is scheduled and produced": every index of an accepted call (given as recorder id of the
+call and number of messages) was appended to a batch for which a produce attempt was started (an attempt that dies in
+the transport before reaching a broker still counts — the Writer did send) -/
+def attemptedAll (evs : List TEv) (accepted : List (String × Nat)) : Bool :=
+  accepted.all (fun (ptr, n) => (List.range n).all (fun i =>
+    evs.any (fun e => match e with
+      | ["PW.Add", _, b, p, j, _] => p == ptr && j == toString i &&
+          evs.any (fun e' => match e' with | ["PW.Attempt", _, b', _] => b' == b | _ => false)
+      | _ => false)))
 
 def countWhere (evs : List TEv) (p : TEv → Bool) : Nat := (evs.filter p).length
 
